@@ -32,6 +32,9 @@ func (v *VC) Preamble() string {
 	sb.WriteString("(declare-fun priv (Int) Bool)\n(assert (forall ((i Int)) (! (=> (<= i 0) (not (priv i))) :pattern ((priv i)))))\n")
 	sb.WriteString("(define-fun ext ((p Ptr)) Bool (not (priv (root p))))\n")
 	sb.WriteString("(declare-fun selem (Slice Int) Ptr)\n(assert (forall ((s Slice) (i Int)) (! (= (selem s i) (elm (s-base s) (+ (s-off s) i))) :pattern ((selem s i)))))\n")
+	if v.features["tyof"] {
+		sb.WriteString("(declare-fun tyof (Ptr) Int)\n")
+	}
 	if v.features["implements"] {
 		sb.WriteString("(declare-fun implements (Int Int) Bool)\n")
 	}
